@@ -7,6 +7,7 @@ import Gonuts.Model.SpecDriver
 import Gonuts.Model.WireDriver
 import Gonuts.Model.WalletDriver
 import Gonuts.Model.MintDriver
+import Gonuts.Model.WalletBooksDriver
 /-!
   Line-protocol driver.  Reads one S-expression per line `(cmd arg…)`, answers one line.
   Stateless commands are dispatched by name; stateful sessions (mint model) live in `St`.
@@ -16,6 +17,7 @@ open Gonuts Gonuts.Model
 
 structure St where
   mint : Model.Mint.Sess := {}
+  books : Model.WalletBooksDriver.BSt := {}
 
 def u64? (s : Sexp) : Option UInt64 := do
   let n ← s.asNat?
@@ -55,6 +57,10 @@ def step (st : St) (line : String) : St × String :=
     else if cmd.startsWith "mint." then
       match Model.MintDriver.handle st.mint cmd args with
       | some (m', out) => ({ st with mint := m' }, out.render)
+      | none => (st, "(bad-op)")
+    else if cmd.startsWith "books." then
+      match Model.WalletBooksDriver.handleSt st.books cmd args with
+      | some (b', out) => ({ st with books := b' }, out.render)
       | none => (st, "(bad-op)")
     else
       let r :=
